@@ -27,15 +27,16 @@ SPEC = dict(
         "handleUpdate / restart (state: persisted last_processed_time at RFC3339 second resolution, is_active; clock in "
         "unbounded integer nanoseconds), for ALL op histories: C29_chain (every window selected from the cursor starts "
         "exactly at the end of the last recorded execution), C29_fail_no_advance (aggregation failure, record failure, "
-        "rejected/dry-run/inactive executions, updates and restarts leave the cursor unchanged), C29_label (rows carry "
-        "floor_us(start); equal to the queried window start whenever the start is a whole second, in particular for "
-        "every cursor-based window), and — under the explicit carve-out `Tame` (no manual execution with an explicit "
-        "start_time/end_time, no record failure after rows were written) — C29_contiguous_partial / C29_once_partial: "
-        "successful windows tile the time axis: successive ones satisfy s_{i+1}=e_i and no instant is covered twice. "
-        "The carve-outs are tight: C29_*_witness theorems give 2-3 step histories (manual backfill rewinds the cursor; "
-        "manual range ahead of the cursor leaves a gap; rows written but record failed => window re-run; sub-second "
-        "first/explicit start => label != queried start). Facts regenerated from the source tie the model's step order "
-        "(aggregate, then record+advance in one transaction; which paths record; which value is stored; label source). "
+        "rejected/dry-run/inactive executions, updates and restarts leave the cursor unchanged), C29_label in full (rows of "
+        "EVERY execution carry exactly the whole-second start of the window that was aggregated and reported — the "
+        "sub-second label defect this check found was fixed in /repo 388c9ab), and — under the explicit decidable carve-out "
+        "`tameOp` (no manual execution with an explicit start_time/end_time, no record failure after rows were written) — "
+        "C29_contiguous_partial / C29_once_partial / C29_sched_contiguous_partial: successful windows tile the time axis: "
+        "successive ones satisfy s_{i+1}=e_i and no instant is covered twice. The carve-outs are tight (known findings): "
+        "C29_once_witness (manual backfill rewinds the cursor), C29_contiguous_witness (manual range ahead of the cursor "
+        "leaves a gap), C29_rerun_witness (rows written but record failed => window re-run) are 3-4 step histories replayed "
+        "on the real code. C29_source_shape ties the model's step order to facts regenerated from the source (aggregate, "
+        "then record+advance in one transaction; which paths record; which value is stored; the label expression). "
         "The model is diffed op-by-op against the real handler + scheduler (SQLite + DuckDB + ArrowBuffer + local "
         "parquet) under a virtual clock; monitors check overlap/gap/label directly on the windows the real code executed."
     ),
@@ -56,16 +57,17 @@ SPEC = dict(
         ("internal/scheduler/cq_scheduler.go", _rw_cq_scheduler),
     ],
     harnesses=[dict(name="c29", tags="verif duckdb_arrow",
-                    timeout=dict(quick=600, thorough=2400))],
+                    timeout=dict(quick=900, thorough=3000))],
     trusted_base=[
         "Go time.Format/Parse(RFC3339) and go-sqlite3's TIMESTAMP round trip are modelled as floor-to-second of a UTC "
-        "instant (validated by the harness for years 1970..2200, including non-UTC offsets and fractional seconds in "
-        "explicit start_time/end_time)",
+        "instant (validated by the harness for clock epochs 1985, 2001, 2024, 2040 and 2099, including non-UTC offsets and "
+        "fractional seconds in explicit start_time/end_time)",
         "DuckDB evaluates the window predicate `time >= '<start>' AND time < '<end>'` as the half-open interval "
         "[start, end) on microsecond timestamps (validated by the source-row counts of every execution in the harness)",
         "SQLite transactions are atomic (record failure is injected with a RAISE(ABORT) trigger on the real database file)",
-        "the virtual clock injected by clockify is constant during one execution (real executions read the clock "
-        "several times within microseconds; endTime is captured before the aggregation runs)",
+        "within one execution the clock reads that choose the window happen at one instant (they are microseconds apart in "
+        "reality); the harness does move the virtual clock by 1.5-2.5 s while the aggregation runs, so a cursor taken from the "
+        "clock after the aggregation instead of the captured endTime is caught dynamically",
         "executions of one continuous query are sequential (histories are sequences, as in the property's quantifier); "
         "a manual execution racing a scheduled one is outside the model",
     ],
